@@ -77,6 +77,10 @@ def run(ctx, replay=None):
     # both thresholds crossed at once: the history that wedged the code before the event queue became unbounded
     below += [{"sessions": n, "hold_tick": True, "reassoc": True, "deadline_ms": 6000}
               for n in ([rnd.randint(530, 800)] if ctx.tier == "quick" else [513, 600, 1000])]
+    # the same with SEVERAL THOUSAND timer events posted in the one turn (sessions x urrs well beyond any plausible bound
+    # of the event queue) while the tick reports more sessions than the report queue holds
+    below += [{"sessions": n, "urrs": u, "hold_tick": True, "reassoc": True, "deadline_ms": 12000}
+              for n, u in ([(rnd.randint(520, 600), 8)] if ctx.tier == "quick" else [(520, 8), (600, 8), (700, 12)])]
     # the loop held in the middle of the bulk removal while the periodic server fills the report channel and waits: the
     # rest of the loop's turn must not need the periodic server (a lock shared between posting and reporting would wedge)
     below += [{"sessions": n, "hold_tick": True, "reassoc": True, "hold_loop": True, "deadline_ms": 6000}
